@@ -109,6 +109,17 @@ func (e *Evaluator) error(token Token, msg string) RuntimeError {
 	}
 }
 
+// a control-flow signal that reaches a place where it has no meaning (next
+// outside a pattern rule, ...) is reported as an ordinary runtime error
+// instead of leaking to the caller. exit is meaningful everywhere.
+func (e *Evaluator) straySignalError(err error, token Token) error {
+	switch err {
+	case errNext, errBreak, errContinue, errReturn:
+		return e.error(token, fmt.Sprintf("%s is not allowed here", err.Error()))
+	}
+	return err
+}
+
 func (e *Evaluator) pushFrame(name string) error {
 	frame := stackFrame{
 		name:   name,
@@ -1047,6 +1058,9 @@ func (e *Evaluator) evalRules(rules []*Rule) error {
 		match := true
 		if rule.Pattern != nil {
 			cell, err := e.evalExpr(rule.Pattern)
+			if err == errNext {
+				return nil
+			}
 			if err != nil {
 				return err
 			}
@@ -1111,6 +1125,17 @@ func (e *Evaluator) GetRootJson() (string, error) {
 }
 
 func EvalExpression(exprSrc string, rootValue interface{}, stdout io.Writer) (*Cell, error) {
+	cell, err := evalExpression(exprSrc, rootValue, stdout)
+	if err == errExit {
+		// exit only ends the evaluation of the expression
+		return NewCell(NewValue(nil)), nil
+	}
+	return cell, err
+}
+
+// like EvalExpression, but an exit inside the expression is returned as
+// errExit so that EvalProgram can end the run
+func evalExpression(exprSrc string, rootValue interface{}, stdout io.Writer) (*Cell, error) {
 	lex := NewLexer(exprSrc)
 	parser := NewParser(&lex)
 	expr, err := parser.ParseExpression()
@@ -1122,8 +1147,8 @@ func EvalExpression(exprSrc string, rootValue interface{}, stdout io.Writer) (*C
 	ev.root = rootCell
 	ev.ruleRoot = rootCell
 	cell, err := ev.evalExpr(expr)
-	if err != nil && err != errExit {
-		return nil, err
+	if err != nil {
+		return nil, ev.straySignalError(err, expr.Token())
 	}
 	return cell, nil
 }
@@ -1150,7 +1175,7 @@ func EvalProgram(progSrc string, files []InputFile, rootSelectors []string, stdo
 			if err == errExit {
 				return &ev, nil
 			}
-			return &ev, err
+			return &ev, ev.straySignalError(err, rule.Body.Token())
 		}
 	}
 
@@ -1171,7 +1196,10 @@ func EvalProgram(progSrc string, files []InputFile, rootSelectors []string, stdo
 			rootCells := make([]*Cell, 0)
 			if len(rootSelectors) > 0 {
 				for _, rootSelector := range rootSelectors {
-					cell, err := EvalExpression(rootSelector, rootValue, stdout)
+					cell, err := evalExpression(rootSelector, rootValue, stdout)
+					if err == errExit {
+						return &ev, nil
+					}
 					if err != nil {
 						return &ev, err
 					}
@@ -1191,7 +1219,7 @@ func EvalProgram(progSrc string, files []InputFile, rootSelectors []string, stdo
 						if err == errExit {
 							return &ev, nil
 						}
-						return &ev, err
+						return &ev, ev.straySignalError(err, rule.Body.Token())
 					}
 				}
 
@@ -1211,7 +1239,7 @@ func EvalProgram(progSrc string, files []InputFile, rootSelectors []string, stdo
 						if err == errExit {
 							return &ev, nil
 						}
-						return &ev, err
+						return &ev, ev.straySignalError(err, rule.Body.Token())
 					}
 				}
 			}
@@ -1225,7 +1253,7 @@ func EvalProgram(progSrc string, files []InputFile, rootSelectors []string, stdo
 			if err == errExit {
 				return &ev, nil
 			}
-			return &ev, err
+			return &ev, ev.straySignalError(err, rule.Body.Token())
 		}
 	}
 
